@@ -102,6 +102,13 @@ def main():
         rots = sum(1 for b in behs for s in b if s["act"]["name"] == "Rotate")
         vlib.require(rots > 50, "too few rotations in the generated behaviours")
         summ, bad = replay_behaviours(vh, behs, run.seed, sc, "F")
+        # a time-out of the harness' waits on a busy machine must not become a verdict: run those again
+        again = [o for o in bad if o["desc"].get("cls") == "stuck"]
+        if again:
+            _, bad_again = replay_behaviours(vh, [o["behaviour"] for o in again], run.seed, sc, "F (stuck behaviours again)")
+            still = set(json.dumps(o["behaviour"], sort_keys=True) for o in bad_again)
+            bad = [o for o in bad if o["desc"].get("cls") != "stuck" or json.dumps(o["behaviour"], sort_keys=True) in still]
+            run.note("%d behaviour(s) timed out in the first pass, %d again when run alone" % (len(again), len(bad_again)))
         run.count(summ["steps"])
         run.cov["traces_validated_against_impl"] += len(behs)
         run.cov["rotations_executed"] = summ["rotations"]
